@@ -132,6 +132,25 @@ func runPFB(data []byte, m pfbModel, sch sim.Schedule, tape *sim.Tape, nextBuf f
 			}
 		}
 	}
+	// "stopping at the end marker": once the decoder has announced the end,
+	// reading again must not produce anything more
+	if termErr == io.EOF {
+		for i := 0; i < 2; i++ {
+			buf := make([]byte, 1+nextBuf())
+			n, err := r.Read(buf)
+			if explain && len(trace) < 200 {
+				e := ""
+				if err != nil {
+					e = err.Error()
+				}
+				trace = append(trace, pfbRead{len(buf), n, e})
+			}
+			if n != 0 || err == nil {
+				return &sim.Outcome{Class: "data-after-end", Key: "pfb:data-after-end",
+					Detail: fmt.Sprintf("after the decoder had returned io.EOF a further Read returned n=%d err=%v (%q)", n, err, clip(buf[:max(n, 0)]))}, trace, ob
+			}
+		}
+	}
 	if src.NoProgress {
 		return &sim.Outcome{Class: "no-progress", Key: "pfb:src-no-progress", Detail: "decoder kept calling the source after it had ended"}, trace, ob
 	}
